@@ -84,8 +84,36 @@ def _oracle_factory(case, ep_set, C, direction):
             return False
         return None
 
+    def id_range(x):
+        """Values a cell id can stand for under the case assumptions."""
+        if isinstance(x, int):
+            return (x, x)
+        lo = 1 if C == WHITE else 7
+        if x == "sc":
+            return (lo + 1, lo + 5)          # a non-pawn man of the mover
+        if x == "dc":
+            olo = 7 if C == WHITE else 1
+            return (olo, olo + 5)            # a man of the opponent
+        return None
+
     def oracle(d, st, sim):
         u = unstamp(d)
+        if d[0] == "un" and d[1] == "Not":
+            v = oracle(d[2], st, sim)
+            return None if v is None else 1 - v
+        if d[0] == "bin" and d[1] in ("Lt", "Le", "Gt", "Ge"):
+            ra = id_range(ident(d[2], st, sim)) if d[2][0] != "const" else (d[2][1], d[2][1])
+            rb = id_range(ident(d[3], st, sim)) if d[3][0] != "const" else (d[3][1], d[3][1])
+            if ra is None or rb is None:
+                return None
+            op = d[1]
+            always = {"Lt": ra[1] < rb[0], "Le": ra[1] <= rb[0], "Gt": ra[0] > rb[1], "Ge": ra[0] >= rb[1]}[op]
+            never = {"Lt": ra[0] >= rb[1], "Le": ra[0] > rb[1], "Gt": ra[1] <= rb[0], "Ge": ra[1] < rb[0]}[op]
+            if always:
+                return 1
+            if never:
+                return 0
+            return None
         if u[0] == "discr" and u[1][0] == "field" and u[1][2] == "ep_source":
             if d[1][0] == "ld" and d[1][1] == 0 and direction == "make":
                 return 1 if ep_set else 0
